@@ -224,7 +224,9 @@ class RunWeekly(RunPeriod):
     """
 
     def compare_dates(self, now, date_to_compare):
-        if now.year != date_to_compare.year or now.week != date_to_compare.week:
+        # compare ISO (year, week): the week straddling New Year has one week
+        # number but two calendar years
+        if tuple(now.isocalendar())[:2] != tuple(date_to_compare.isocalendar())[:2]:
             return True
         return False
 
